@@ -164,6 +164,13 @@ def _discharge(crate, b, bb, e, explicit_tryfrom_targets, returns_some):
                         if guard.is_capacity_call(l):
                             # Bvf::<I,N>::capacity() <= Bvp::capacity(): source capacity bounds its length
                             return "pass", "U2: guarded by source capacity <= target capacity (len <= capacity of the source)"
+                        # slice source: len(slice) * BITS <= capacity() is exactly the failure predicate of TryFrom<&[J]>
+                        if is_bin(l, "Mul") and any(is_call(y, "len") and y[3] == (x,) for y in (l[2], l[3])) \
+                                and any(y[0] == "assoc" and y[1] == "BITS" for y in (l[2], l[3])):
+                            return "pass", "U2: guarded by len(%s) * BITS <= capacity()" % show(x)[:40]
+                        # integer source: uN::BITS <= capacity()
+                        if (l[0] == "cast" and l[1][0] == "assoc" and l[1][1] == "BITS") or (l[0] == "assoc" and l[1] == "BITS"):
+                            return "pass", "U2: guarded by BITS <= capacity()"
             # trimmed source: copy_range(d, 0..k) with k <= significant_bits(self) <= len(self) <= capacity
             if is_call(x, "copy_range") and len(x[3]) == 2:
                 rng = x[3][1]
